@@ -259,6 +259,16 @@ func newWorld(local bool, repl string, placement int, wiringChoice bool) *world 
 	w := &world{local: local, remote: repl == "remote"}
 	w.a = newReplica("replica A", local, w)
 	w.b = newReplica("replica B", local, w)
+	if repl == "queued" {
+		// The queued replicator remembers, for its cache duration, what it has copied and skips those objects: with
+		// a replica that loses accepted copies a later existence check legitimately stays unsynchronised, so the
+		// "accepted upload lost again" fault is not offered with this strategy.
+		for _, rp := range []*replica{w.a, w.b} {
+			if f, ok := rp.ba.(*faulty); ok {
+				f.model = nil
+			}
+		}
+	}
 	parent := lstore.CASObj("X", "", objContents[0])
 	w.slicer = lstore.NewFixedSlicer("", parent.Content, 3)
 	zInstance := ""
